@@ -11,6 +11,7 @@
 #include "draco/compression/encode.h"
 #include "draco/compression/expert_encode.h"
 #include "draco/attributes/attribute_quantization_transform.h"
+#include "draco/attributes/attribute_octahedron_transform.h"
 #include "draco/mesh/mesh.h"
 #include "draco/metadata/geometry_metadata.h"
 #include "draco/metadata/metadata_encoder.h"
@@ -20,7 +21,8 @@ using namespace draco;
 
 struct AttSpec {
   GeometryAttribute::Type type; DataType dt; int nc; bool norm; uint32_t uid;
-  char kind;          // G, I, Q
+  char kind;          // G, I, Q, N (quantized normals)
+  bool geo_normal = false;   // N on a mesh: ask for MESH_PREDICTION_GEOMETRIC_NORMAL (falls back to the delta predictor without a corner table)
   int q = 0; int pred = 1; bool explicit_q = false; std::vector<float> origin; float range = 1.f;
   std::vector<uint8_t> rows;   // np * stride raw bytes, point order
 };
@@ -40,6 +42,7 @@ static std::string att_text(const AttSpec &a, const Geo &g) {
   const int lvl = 10 - g.speed;
   if (a.kind == 'G') k = "G";
   else if (a.kind == 'I') k = "I/" + S(a.pred) + "/" + S(g.builtin) + "/" + S(lvl);
+  else if (a.kind == 'N') k = "N/" + S(a.q) + "/" + S(a.pred) + "/" + S(g.builtin) + "/" + S(lvl);
   else {
     k = "Q/" + S(a.q) + "/" + S(a.pred) + "/" + S(g.builtin) + "/" + S(lvl) + "/";
     if (!a.explicit_q) k += "-";
@@ -75,6 +78,13 @@ static std::string decoded_text(const PointCloud &pc, const Mesh *m, int64_t rem
     std::string rows; std::vector<uint8_t> buf(a->byte_stride());
     std::vector<uint8_t> all;
     for (PointIndex p(0); p < pc.num_points(); ++p) { a->GetMappedValue(p, buf.data()); all.insert(all.end(), buf.begin(), buf.end()); }
+    // a NaN has no portable bit pattern across arithmetic (dequantizing a corrupted stream whose parameters are signalling NaNs: the
+    // hardware quiets them, operand order is the compiler's): every float32 NaN is printed as 0x7fc00000, by the driver too.
+    // (Bit-exact preservation of NaN payloads by the generic coder is checked directly on the implementation by check_roundtrip.)
+    if (a->data_type() == DT_FLOAT32) for (size_t k = 0; k + 4 <= all.size(); k += 4) {
+      uint32_t b = (uint32_t)all[k] | ((uint32_t)all[k + 1] << 8) | ((uint32_t)all[k + 2] << 16) | ((uint32_t)all[k + 3] << 24);
+      if ((b & 0x7f800000u) == 0x7f800000u && (b & 0x007fffffu) != 0) { all[k] = 0; all[k + 1] = 0; all[k + 2] = 0xc0; all[k + 3] = 0x7f; }
+    }
     t += " " + S(a->attribute_type()) + "." + S(a->data_type()) + "." + S(a->num_components()) + "." + S(a->normalized()) + "." + U(a->unique_id()) + "." + hex(all.data(), all.size());
     if (a->GetAttributeTransformData() && a->GetAttributeTransformData()->transform_type() == ATTRIBUTE_QUANTIZATION_TRANSFORM) {
       AttributeQuantizationTransform qt; if (qt.InitFromAttribute(*a)) {
@@ -82,6 +92,9 @@ static std::string decoded_text(const PointCloud &pc, const Mesh *m, int64_t rem
         for (int c = 0; c < a->num_components(); c++) { float m = qt.min_value(c); uint32_t b; memcpy(&b, &m, 4); t += "," + U(b); }
         float rg = qt.range(); uint32_t rb; memcpy(&rb, &rg, 4); t += "," + U(rb);
       }
+    }
+    if (a->GetAttributeTransformData() && a->GetAttributeTransformData()->transform_type() == ATTRIBUTE_OCTAHEDRON_TRANSFORM) {
+      AttributeOctahedronTransform ot; if (ot.InitFromAttribute(*a)) t += ".O" + S(ot.quantization_bits());
     }
   }
   return t + " " + S(rem);
@@ -133,7 +146,9 @@ static Geo gen_geo(Rng &r, bool mesh, bool big) {
     AttSpec a; a.uid = r.chance(70) ? (uint32_t)i : (uint32_t)r.biased(32); a.norm = r.chance(15);
     int sel = (int)r.below(10);
     if (md_skip && sel >= 5) sel = (int)r.below(4);
-    if (sel < 3) { a.type = i == 0 ? GeometryAttribute::POSITION : GeometryAttribute::GENERIC; a.dt = DT_FLOAT32; a.nc = r.chance(70) ? 3 : (int)r.range(1, 4); }
+    const bool normal_att = r.chance(md_skip ? 30 : 18);
+    if (normal_att) { a.type = GeometryAttribute::NORMAL; a.dt = DT_FLOAT32; a.nc = r.chance(3) ? (int)r.range(1, 4) : 3; }
+    else if (sel < 3) { a.type = i == 0 ? GeometryAttribute::POSITION : GeometryAttribute::GENERIC; a.dt = DT_FLOAT32; a.nc = r.chance(70) ? 3 : (int)r.range(1, 4); }
     else if (sel < 4) { a.type = GeometryAttribute::TEX_COORD; a.dt = DT_FLOAT32; a.nc = 2; }
     else if (sel < 5) { a.type = GeometryAttribute::COLOR; a.dt = DT_UINT8; a.nc = (int)r.range(3, 4); }
     else if (sel < 9) { static const DataType ints[] = {DT_INT8, DT_UINT8, DT_INT16, DT_UINT16, DT_INT32, DT_UINT32}; a.type = GeometryAttribute::GENERIC; a.dt = ints[r.below(6)]; a.nc = (int)r.range(1, 5); }
@@ -141,6 +156,11 @@ static Geo gen_geo(Rng &r, bool mesh, bool big) {
     for (auto &b : g.atts) if (b.uid == a.uid) a.uid = b.uid + 1000 + i;
     a.pred = r.chance(25) ? 0 : 1;
     if (dt_int(a.dt)) a.kind = 'I';
+    else if (normal_att && r.chance(90)) {
+      a.kind = 'N'; a.q = r.chance(85) ? (int)r.range(2, 14) : (r.chance(70) ? (int)r.range(15, 20) : 1);
+      a.geo_normal = mesh && a.pred == 1 && r.chance(30);
+    }
+    else if (normal_att) a.kind = 'G';      // NORMAL attribute without quantization: the generic coder
     else if (a.dt == DT_FLOAT32 && r.chance(getenv("SEQ_MODE") && !strcmp(getenv("SEQ_MODE"), "skip") ? 95 : 60)) { a.kind = 'Q'; a.q = r.chance(10) ? (int)r.range(1, 3) : (int)r.range(4, 12); if (r.chance(3)) a.q = (int)r.range(13, 18); }
     else a.kind = 'G';
     int flavor = (int)r.below(4);
@@ -148,7 +168,19 @@ static Geo gen_geo(Rng &r, bool mesh, bool big) {
     for (int p = 0; p < g.np; p++) {
       if (constant && p > 0) { for (int k = 0; k < a.nc * dt_len(a.dt); k++) a.rows.push_back(a.rows[k]); continue; }
       for (int c = 0; c < a.nc; c++) {
-        if (a.kind == 'Q') {   // finite, moderate values for quantization
+        if (a.kind == 'N') {   // unit-ish and arbitrary finite vectors; rarely zero / tiny / NaN components (never Inf: the conversion is undefined)
+          static int nflavor = 0; if (c == 0) nflavor = (int)r.below(20);
+          float f;
+          if (nflavor < 9) f = (float)r.range(-1000, 1000) / 1000.f;
+          else if (nflavor < 14) f = rnd_float(r);
+          else if (nflavor < 16) f = (float)r.range(-3, 3);
+          else if (nflavor < 17) f = 0.f;
+          else if (nflavor < 18) f = std::ldexp((float)r.range(-8, 8), -24);
+          else if (nflavor < 19) f = r.chance(20) ? std::nanf("") : (float)r.range(-2, 2);
+          else f = std::ldexp((float)r.range(-1000, 1000), (int)r.range(-30, 60));
+          if (std::isinf(f)) f = 1.f;
+          uint32_t b; memcpy(&b, &f, 4); for (int k = 0; k < 4; k++) a.rows.push_back((uint8_t)(b >> (8 * k)));
+        } else if (a.kind == 'Q') {   // finite, moderate values for quantization
           float f = (float)r.range(-2000, 2000) / (float)(1 << r.below(8)); if (r.chance(5)) f = std::ldexp(f, (int)r.range(-10, 10));
           uint32_t b; memcpy(&b, &f, 4); for (int k = 0; k < 4; k++) a.rows.push_back((uint8_t)(b >> (8 * k)));
         } else put_val(a.rows, a.dt, r, flavor);
@@ -186,7 +218,13 @@ static bool encode(const Geo &g, const PointCloud &pc, EncoderBuffer &eb, std::s
   for (size_t i = 0; i < g.atts.size(); i++) {
     const AttSpec &a = g.atts[i];
     if (a.kind == 'Q') { if (a.explicit_q) enc->SetAttributeExplicitQuantization((int)i, a.q, a.nc, a.origin.data(), a.range); else enc->SetAttributeQuantization((int)i, a.q); }
-    if (a.kind != 'G' && a.pred == 0) enc->SetAttributePredictionScheme((int)i, PREDICTION_NONE);
+    if (a.kind == 'N') enc->SetAttributeQuantization((int)i, a.q);
+    if (a.kind != 'G' && a.pred == 0) {
+      // for NORMAL attributes the public setter refuses PREDICTION_NONE; the option itself still selects "no prediction"
+      if (a.type == GeometryAttribute::NORMAL) enc->options().SetAttributeInt((int)i, "prediction_scheme", PREDICTION_NONE);
+      else enc->SetAttributePredictionScheme((int)i, PREDICTION_NONE);
+    }
+    if (a.kind == 'N' && a.geo_normal) enc->SetAttributePredictionScheme((int)i, MESH_PREDICTION_GEOMETRIC_NORMAL);
   }
   Status s = enc->EncodeToBuffer(&eb);
   if (!s.ok()) err = s.error_msg();
@@ -212,6 +250,20 @@ static void check_roundtrip(Out &o, const Geo &g, const PointCloud &dec, const M
     float range = 0; if (a.kind == 'Q') { for (int c = 0; c < a.nc; c++) range = std::max(range, hi[c] - lo[c]); if (range == 0) range = 1; if (a.explicit_q) range = a.range; }
     for (int p = 0; p < g.np; p++) {
       d->GetMappedValue(PointIndex(p), buf.data());
+      if (a.kind == 'N') {   // C07: unit length, angle to the input within 3*(2/(2^q-2)) + 2e-6; no claim for NaN input or |v|_1 <= 1e-6 (known finding)
+        float x[3], y[3]; memcpy(x, a.rows.data() + (size_t)p * stride, 12); memcpy(y, buf.data(), 12);
+        if (!(std::isfinite(y[0]) && std::isfinite(y[1]) && std::isfinite(y[2]))) { o.fail("C07/C01 decoded normal not finite (uid " + U(a.uid) + " point " + S(p) + "): " + gt); return; }
+        if (!(std::isfinite(x[0]) && std::isfinite(x[1]) && std::isfinite(x[2]))) continue;
+        const double l1 = std::fabs((double)x[0]) + std::fabs((double)x[1]) + std::fabs((double)x[2]);
+        if (!(l1 > 1e-6)) continue;
+        long double ax = x[0], ay = x[1], az = x[2], bx = y[0], by = y[1], bz = y[2];
+        long double m = std::max(fabsl(ax), std::max(fabsl(ay), fabsl(az))); ax /= m; ay /= m; az /= m;
+        long double cx = ay * bz - az * by, cy = az * bx - ax * bz, cz = ax * by - ay * bx;
+        long double ang = atan2l(sqrtl(cx * cx + cy * cy + cz * cz), ax * bx + ay * by + az * bz);
+        long double bd = 3.0L * (2.0L / (ldexpl(1.0L, a.q) - 2.0L)) + 2e-6L;
+        if (!(ang <= bd)) { o.fail("C07/C01 decoded normal off by more than the angle bound (uid " + U(a.uid) + " point " + S(p) + " angle " + std::to_string((double)ang) + "): " + gt); return; }
+        continue;
+      }
       if (a.kind != 'Q') { if (memcmp(buf.data(), a.rows.data() + (size_t)p * stride, stride)) { o.fail("C01 unquantized value changed (uid " + U(a.uid) + " point " + S(p) + "): " + gt); return; } }
       else for (int c = 0; c < a.nc; c++) {
         float x, y; memcpy(&x, a.rows.data() + (size_t)p * stride + 4 * c, 4); memcpy(&y, buf.data() + 4 * c, 4);
@@ -285,6 +337,14 @@ static void check_skip(Out &o, const std::vector<uint8_t> &bytes, bool mesh, con
       for (PointIndex p(0); p < a->num_points(); ++p) { pa->GetMappedValue(p, x.data()); pb->GetMappedValue(p, y.data()); if (x != y) { o.fail("C10 unskipped attribute changed value: " + gt); return; } }
       continue;
     }
+    if (pb->GetAttributeTransformData()->transform_type() == ATTRIBUTE_OCTAHEDRON_TRANSFORM) {
+      AttributeOctahedronTransform ot; if (!ot.InitFromAttribute(*pb)) { o.fail("C10 transform data unusable: " + gt); return; }
+      PointAttribute out; out.Init(pa->attribute_type(), 3, DT_FLOAT32, false, pb->size());
+      if (!ot.InverseTransformAttribute(*pb, &out)) { o.fail("C10 inverse transform failed: " + gt); return; }
+      std::vector<uint8_t> x(pa->byte_stride()), y(out.byte_stride());
+      for (PointIndex p(0); p < a->num_points(); ++p) { pa->GetMappedValue(p, x.data()); out.GetValue(pb->mapped_index(p), y.data()); if (x != y) { o.fail("C10 re-applied transform differs from the normal decode (uid " + U(pa->unique_id()) + "): " + gt); return; } }
+      continue;
+    }
     AttributeQuantizationTransform qt; if (!qt.InitFromAttribute(*pb)) { o.fail("C10 transform data unusable: " + gt); return; }
     PointAttribute out; out.Init(pa->attribute_type(), pa->num_components(), DT_FLOAT32, false, pb->size());
     if (!qt.InverseTransformAttribute(*pb, &out)) { o.fail("C10 inverse transform failed: " + gt); return; }
@@ -335,13 +395,13 @@ int main(int argc, char **argv) {
       DecoderBuffer db; db.Init((const char *)b2.data(), b2.size()); Decoder d;
       if (mesh) {
         auto res = d.DecodeMeshFromBuffer(&db);
-        if (!res.ok()) { bool d11 = g.np == 0 && !g.atts.empty(); bool hasint = false; for (auto &a : g.atts) if (a.kind == 'I') hasint = true;
+        if (!res.ok()) { bool d11 = g.np == 0 && !g.atts.empty(); bool hasint = false; for (auto &a : g.atts) if (a.kind == 'I' || a.kind == 'N') hasint = true;
           const bool d10 = g.compress_conn && std::string(res.status().error_msg()) == "Failed to decode geometry data.";
           o.fail(std::string(d11 && hasint ? "D11-empty-geometry-integer-attribute: " : d10 ? "D10-compressed-connectivity-guard: " : "C01 encode ok but decode failed: ") + res.status().error_msg() + " " + gt); }
         else { if (db.remaining_size() != junk) o.fail("C06 decoder did not consume exactly the stream: " + gt); check_roundtrip(o, g, *res.value(), res.value().get(), gt); }
       } else {
         auto res = d.DecodePointCloudFromBuffer(&db);
-        if (!res.ok()) { bool hasint = false; for (auto &a : g.atts) if (a.kind == 'I') hasint = true;
+        if (!res.ok()) { bool hasint = false; for (auto &a : g.atts) if (a.kind == 'I' || a.kind == 'N') hasint = true;
           o.fail(std::string(g.np == 0 && hasint ? "D11-empty-geometry-integer-attribute: " : "C01 encode ok but decode failed: ") + res.status().error_msg() + " " + gt); }
         else { if (db.remaining_size() != junk) o.fail("C06 decoder did not consume exactly the stream: " + gt); check_roundtrip(o, g, *res.value(), nullptr, gt); }
       }
@@ -362,6 +422,15 @@ int main(int argc, char **argv) {
       size_t keep = with_md ? bytes.size() : (mesh ? 11 + 6 : 11 + 4);
       int nc = thorough ? 4 : 2;
       for (int k = 0; k < nc && keep < bytes.size(); k++) { decode_case(o, corrupt(r, bytes, keep), mesh, mesh ? "dmeshseq" : "dpcseq"); dec_cases++; }
+      // targeted: a delta-coded normal block re-labelled with the legacy octahedral transform (type 2), for point clouds also
+      // under a bitstream version below 2.2 (the legacy transform then reads a second int32), and with a changed max_quantized_value
+      bool has_n = false; for (auto &a : g.atts) if (a.kind == 'N' && a.pred == 1) has_n = true;
+      if (has_n && g.np > 0) for (size_t p = keep; p + 2 < bytes.size(); p++) if (bytes[p] == 0 && bytes[p + 1] == 3 && bytes[p + 2] <= 1) {
+        std::vector<uint8_t> b2 = bytes; b2[p + 1] = 2; if (!mesh && r.chance(50)) b2[6] = (uint8_t)r.below(3);
+        decode_case(o, b2, mesh, mesh ? "dmeshseq" : "dpcseq"); dec_cases++;
+        if (r.chance(50)) { std::vector<uint8_t> b3 = bytes; b3[p + 1] = (uint8_t)r.below(4); decode_case(o, b3, mesh, mesh ? "dmeshseq" : "dpcseq"); dec_cases++; }
+        break;
+      }
     }
   }
   // keyframe animations (C20): a point cloud coded by the sequential codec
